@@ -265,6 +265,14 @@ def rule_linear(ctx):
                                 f"position instead of appended: later positions no longer mean what the "
                                 f"linear format says")
                     continue
+                inplace = [x for x in ast.walk(lp) if isinstance(x, ast.Subscript) and isinstance(x.ctx, ast.Store)
+                           and isinstance(x.value, ast.Name) and x.value.id == nm]
+                if inplace:
+                    r.violation(k, C.loc(f, inplace[0]), f"`{C.unparse(C.enclosing_stmt(f, inplace[0]), 50)}` "
+                                f"replaces an element of `{nm}` in place: in the recycled-id format every "
+                                f"step (also a single-tensor step) removes its operands and appends the "
+                                f"result at the end, so all later positions shift")
+                    continue
                 if verdict == "desc":
                     # positions computed before the first removal
                     first_pop = min(p.lineno for p in pops[nm])
@@ -591,4 +599,130 @@ def _closed_form(ctx, r, f):
                     f"(k = index of the step): later steps refer to the wrong intermediate")
 
 
-RULES = [rule_topo, rule_linear, rule_ssaid]
+# ------------------------------------------------------------------ EDGE
+
+CONVERTERS = ("edge_path_to_ssa", "edge_path_to_linear", "linear_to_ssa", "ssa_to_linear")
+
+
+def rule_edge(ctx):
+    r = RuleResult("C10-EDGE", "edge paths contract exactly the tensors that carry each index", 4)
+    # (a) callers hand the caller's path to the converters unfiltered
+    for f in _scope(ctx) if ctx.tier == "thorough" else \
+            list(ctx.p.module(C.CORE).all_funcs) + list(ctx.p.module(C.BASIC).all_funcs) + \
+            list(ctx.p.module(C.INTERFACE).all_funcs):
+        fl = None
+        for n in walk_local(f.node):
+            if not (isinstance(n, ast.Call) and (dotted(n.func) or "").split(".")[-1] in CONVERTERS and n.args):
+                continue
+            a = n.args[0]
+            if not (isinstance(a, ast.Name) and a.id in f.params):
+                continue
+            fl = fl or ctx.flow(f)
+            at = fl.cfg.containing(n, f.module.parents)
+            k = ctx.key(f, "C10-EDGE", f"forward::{(dotted(n.func) or '').split('.')[-1]}")
+            bad = None
+            for d in fl.defs_reaching(a.id, at.id):
+                if d.kind == "param":
+                    continue
+                v = d.value
+                if v is None:
+                    continue
+                if _is_rewrap(v, a.id):
+                    continue
+                bad = v
+            if bad is None:
+                r.ok(k, C.loc(f, n), f"`{a.id}` reaches the converter as given by the caller")
+            else:
+                filt = isinstance(bad, (ast.ListComp, ast.GeneratorExp)) and any(g.ifs for g in bad.generators) \
+                    or (isinstance(bad, ast.Call) and (dotted(bad.func) or "") in ("filter", "sorted", "set", "frozenset")) \
+                    or isinstance(bad, ast.Subscript)
+                inner = bad.args[0] if isinstance(bad, ast.Call) and dotted(bad.func) in ("tuple", "list") and bad.args else bad
+                filt = filt or (isinstance(inner, (ast.ListComp, ast.GeneratorExp)) and any(g.ifs for g in inner.generators))
+                if filt:
+                    r.violation(k, C.loc(f, n), f"the path handed to the converter is `{C.unparse(bad, 70)}`, a "
+                                f"filtered/reordered copy of the caller's `{a.id}`: steps the caller asked for "
+                                f"are dropped before conversion")
+                else:
+                    raise AnalysisError(f"{f.qual}: `{a.id}` is re-bound to `{C.unparse(bad, 60)}` before the "
+                                        f"conversion; cannot tell whether the path is preserved")
+    # (b) the converter itself
+    f = ctx.p.func(C.BASIC, "edge_path_to_ssa")
+    loops = [n for n in f.node.body if isinstance(n, ast.For)]
+    main = [lp for lp in loops if isinstance(lp.iter, ast.Name) and lp.iter.id in f.params]
+    C.require(len(main) == 1, "edge_path_to_ssa: loop over the edge path not found")
+    lp = main[0]
+    ixname = lp.target.id if isinstance(lp.target, ast.Name) else None
+    C.require(ixname is not None, "edge_path_to_ssa: loop target not a name")
+    pops = [n for n in ast.walk(lp) if isinstance(n, ast.Assign) and isinstance(n.value, ast.Call)
+            and isinstance(n.value.func, ast.Attribute) and n.value.func.attr in ("pop", "get")
+            and n.value.args and dotted(n.value.args[0]) == ixname]
+    k = ctx.key(f, "C10-EDGE", "carriers")
+    if len(pops) != 1 or not isinstance(pops[0].targets[0], ast.Name):
+        raise AnalysisError("edge_path_to_ssa: the set of tensors carrying the index is not looked up once")
+    scon = pops[0].targets[0].id
+    apps = [n for n in ast.walk(lp) if isinstance(n, ast.Call) and isinstance(n.func, ast.Attribute)
+            and n.func.attr == "append" and n.args]
+    step_ok = False
+    for a in apps:
+        v = a.args[0]
+        inner = v
+        while isinstance(inner, ast.Call) and dotted(inner.func) in ("tuple", "sorted", "list") and inner.args:
+            inner = inner.args[0]
+        if isinstance(inner, ast.Name) and inner.id == scon:
+            step_ok = True
+            step = a
+    if not step_ok:
+        r.violation(k, C.loc(f, lp), f"the step recorded for an index is not the whole set `{scon}` of tensors "
+                    f"carrying it at that moment")
+    else:
+        r.ok(k, C.loc(f, step), f"step = every tensor in `{scon}` (looked up with `{C.unparse(pops[0].value, 40)}`)")
+    # the only skip: fewer than two carriers
+    k = ctx.key(f, "C10-EDGE", "skip")
+    conts = [n for n in ast.walk(lp) if isinstance(n, ast.Continue)]
+    bad = []
+    for c in conts:
+        ifs = C.enclosing_ifs(f, c)
+        t = ifs[0][0].test if ifs else None
+        ok = isinstance(t, ast.Compare) and isinstance(t.left, ast.Call) and dotted(t.left.func) == "len" \
+            and dotted(t.left.args[0]) == scon and isinstance(t.comparators[0], ast.Constant) and (
+                (isinstance(t.ops[0], ast.Lt) and t.comparators[0].value == 2)
+                or (isinstance(t.ops[0], ast.LtE) and t.comparators[0].value == 1))
+        if not ok:
+            bad.append(C.unparse(t, 60) if t is not None else "unconditional")
+    if bad:
+        r.violation(k, C.loc(f, conts[0]), f"an index of the edge path is skipped under `{bad[0]}`; only an index "
+                    f"carried by fewer than two tensors has nothing to contract")
+    else:
+        r.ok(k, C.loc(f, lp), f"{len(conts)} skip(s), only for fewer than two carriers")
+    # bookkeeping: every remaining index of a consumed tensor moves to the new id
+    k = ctx.key(f, "C10-EDGE", "rehome")
+    removes = [n for n in ast.walk(lp) if isinstance(n, ast.Call) and isinstance(n.func, ast.Attribute)
+               and n.func.attr in ("remove", "discard")]
+    adds = [n for n in ast.walk(lp) if isinstance(n, ast.Call) and isinstance(n.func, ast.Attribute)
+            and n.func.attr == "add" and n.args and isinstance(n.args[0], ast.Name)]
+    same_block = False
+    for rm in removes:
+        for ad in adds:
+            if dotted(rm.func.value) == dotted(ad.func.value) and \
+                    _block(f.module.parents, C.enclosing_stmt(f, rm)) is _block(f.module.parents, C.enclosing_stmt(f, ad)):
+                same_block = True
+    if same_block:
+        r.ok(k, C.loc(f, removes[0]), "a consumed tensor is replaced by the new id on each of its remaining indices")
+    else:
+        r.violation(k, C.loc(f, lp), "the index → tensors map is not updated symmetrically (consumed tensor "
+                    "removed, new tensor added) for the remaining indices: later indices contract stale ids")
+    return r
+
+
+def _is_rewrap(v, name):
+    if isinstance(v, ast.Name) and v.id == name:
+        return True
+    if isinstance(v, ast.Call) and dotted(v.func) in ("tuple", "list") and len(v.args) == 1 and \
+            isinstance(v.args[0], ast.Name) and v.args[0].id == name:
+        return True
+    if isinstance(v, ast.IfExp):
+        return _is_rewrap(v.body, name) and _is_rewrap(v.orelse, name)
+    return False
+
+
+RULES = [rule_topo, rule_linear, rule_ssaid, rule_edge]
